@@ -40,7 +40,7 @@ impl Property for C03 {
         t.pick(1_600_000, 10_000_000)
     }
     fn expected_labels() -> Vec<&'static str> {
-        vec!["sp2", "sp3", "seg2", "plane", "curve2", "curve3", "mesh", "cloud", "cloud_normals", "cloud_colors", "dist", "lift", "closest_tie", "curve3_edge_just_above_tolerance"]
+        vec!["sp2", "sp3", "seg2", "plane", "curve2", "curve3", "mesh", "cloud", "cloud_normals", "cloud_colors", "dist", "lift", "closest_tie", "curve3_edge_just_above_tolerance", "uv_with_transform_argument"]
     }
     fn strategy(t: Tier) -> BoxedStrategy<Case> {
         let tm = 1e3;
@@ -467,9 +467,28 @@ fn mesh(spec: &MeshSpec, t: &Iso3D, qs: &[Query]) -> Verdict {
         }
     }
     let tsoup = crate::oracle::Soup { v: m1.vertices().to_vec(), f: soup.f.clone() };
+    // a copy of the mesh carrying a UV map (any per-vertex assignment will do for the 3D -> UV direction)
+    let uv_mesh = {
+        let uvs: Vec<Point2> = bm.v.iter().enumerate().map(|(i, p)| Point2::new(0.7 * p.x + 0.3 * p.z + 1e-3 * i as f64, p.y - 0.2 * p.z)).collect();
+        engeom::geom3::UvMapping::new(uvs, bm.f.clone()).ok().map(|map| engeom::Mesh::new_with_uv(bm.v.clone(), bm.f.clone(), false, Some(map)))
+    };
     for qs in qs {
         let q = qs.resolve(&bm);
         let tq = iso * q;
+        // the transform argument of uv_with_tol is applied to the point first: the same physical point given directly, or
+        // as its pre-image together with the transform, has the same UV coordinates and the same signed depth
+        if let Some(um) = &uv_mesh {
+            let cap = 3.0 * size;
+            let pre = iso.inverse() * q;
+            let seen = iso * pre;
+            let (direct, via) = (um.uv_with_tol(&seen, cap, std::f64::consts::PI, None), um.uv_with_tol(&pre, cap, std::f64::consts::PI, Some(&iso)));
+            ensure!(direct.is_some() == via.is_some(), "C03/mesh/uv_with_tol/transform", "uv_with_tol with Some(transform) is_some = {} but {} for the transformed point itself", via.is_some(), direct.is_some());
+            if let (Some((uv0, d0)), Some((uv1, d1))) = (direct, via) {
+                ensure!(uv0 == uv1, "C03/mesh/uv_with_tol/transform_uv", "uv {:?} with the transform argument, {:?} for the transformed point", uv1, uv0);
+                ensure!((d0 - d1).abs() <= tol, "C03/mesh/uv_with_tol/transform_depth", "depth {d1:e} with the transform argument, {d0:e} for the transformed point");
+                cx.label("uv_with_transform_argument");
+            }
+        }
         let p0 = m0.point_closest_to(&q);
         let p1 = m1.point_closest_to(&tq);
         let d0 = (p0 - q).norm();
